@@ -503,6 +503,66 @@ def run_routes(fe_name):
     return viol, per_conn
 
 
+def run_two_loops(fe_name):
+    """the same application object run twice, each time on a new event loop (run_forever twice): concurrent commands in the
+    second run work as in the first; a refused duplicate route declaration does not add a second registration"""
+    viol = []
+    face = HFace()
+    cmds = []
+
+    def on_send(wire):
+        cmds.append(wire)
+        r = ns.read_interest(wire)
+        prefix = RegScenario._cmd_prefix(r)
+        face.deliver(bytes(enc.make_data([bytes(x) for x in r['name']], enc.MetaInfo(), control_response(200, 'OK', prefix),
+                                         DigestSha256Signer())))
+    face.on_send = on_send
+    app = None
+    for run in (0, 1):
+        loop = VLoop()
+        with loop, owned_env(loop, seed=run):
+            if app is None:
+                app = FRONTENDS[fe_name].make_app(face)
+                h = (lambda n, ap, reply, ctx: None) if fe_name == 'v2' else (lambda n, p, ap: None)
+                app.route('/r/one')(h)
+                if fe_name == 'v2':
+                    try:
+                        app.route('/r/one')(h)
+                        viol.append((f'C17|{fe_name}|two-loops|duplicate-route-accepted', 'a second route on /r/one was accepted'))
+                    except ValueError:
+                        pass
+            before = len(cmds)
+            main = loop.create_task(app.main_loop())
+            loop.settle()
+            results = {}
+
+            async def call(i, verb, prefix):
+                try:
+                    if verb == 'register':
+                        results[i] = await (app.register(prefix) if fe_name == 'v2' else app.register(prefix, None))
+                    else:
+                        results[i] = await app.unregister(prefix)
+                except BaseException as e:  # noqa
+                    results[i] = f'raises:{type(e).__name__}@{tb_where(e)}'
+            tasks = [loop.create_task(call(i, v, pfx)) for i, (v, pfx) in enumerate((('register', '/x/a'), ('register', '/x/b'), ('unregister', '/x/a')))]
+            loop.settle()
+            targets = []
+            for w in cmds[before:]:
+                v, vp, _ = check_command(fe_name, w, None)
+                viol.extend(v)
+                targets.append(vp)
+            want = [('register', '/r/one'), ('register', '/x/a'), ('register', '/x/b'), ('unregister', '/x/a')]
+            if sorted((t for t in targets if t), key=repr) != sorted(want, key=repr):
+                viol.append((f'C17|{fe_name}|two-loops|commands-run-{run}', f'run {run}: commands {targets}, expected {want}'))
+            if any(r is not True for r in results.values()) or len(results) != 3:
+                viol.append((f'C17|{fe_name}|two-loops|results-run-{run}', f'run {run}: results {results}'))
+            app.shutdown()
+            loop.settle()
+            for f in loop.task_failures(ignore=set(tasks)):
+                viol.append((f"C17|{fe_name}|two-loops|task-error|{f['exception']}@{f['where']}", str(f)))
+    return viol
+
+
 # -- response decoding ------------------------------------------------------------------------------------------
 CP_FIELDS = [('name', 7, 'name'), ('face_id', 0x69, 'uint'), ('uri', 0x72, 'text'), ('local_uri', 0x81, 'text'),
              ('origin', 0x6f, 'uint'), ('cost', 0x6a, 'uint'), ('capacity', 0x83, 'uint'), ('count', 0x84, 'uint'),
@@ -592,6 +652,7 @@ def plan(tier, seed):
     units.append({'kind': 'typed'})
     for fe in ('v2', 'legacy'):
         units.append({'kind': 'routes', 'fe': fe})
+        units.append({'kind': 'two-loops', 'fe': fe})
     for lo in range(0, 65536, 4096):
         units.append({'kind': 'decode', 'lo': lo, 'hi': lo + 4096})
     return {
@@ -681,6 +742,16 @@ def unit(arg):
             for sig, what in viol:
                 acc.violation(sig, what, {'kind': 'typed', 'cls': cname, 'field': fname, 'value': v})
         acc.sample({'typed_fields': sorted({f'{c}.{f}' for c, f, _, _, _ in typed_field_cases()})})
+    elif arg['kind'] == 'two-loops':
+        v = run_two_loops(arg['fe'])
+        acc.evaluations += 1
+        acc.nontrivial += 1
+        acc.transitions += 8
+        acc.state(('two-loops', arg['fe']))
+        acc.outcome(f"two-loops|{arg['fe']}|{'ok' if not v else 'viol'}")
+        acc.observe([arg['fe'], [x[0] for x in v]])
+        for sig, what in v:
+            acc.violation(sig, what, {'kind': 'two-loops', 'fe': arg['fe']})
     elif arg['kind'] == 'routes':
         v, per = run_routes(arg['fe'])
         acc.evaluations += 1
@@ -710,6 +781,8 @@ def unit(arg):
 
 
 def replay(case):
+    if case['kind'] == 'two-loops':
+        return [{'sig': s, 'what': w} for s, w in run_two_loops(case['fe'])]
     if case['kind'] == 'typed':
         for cname, fname, tnum, base, v in typed_field_cases():
             if (cname, fname, v) == (case['cls'], case['field'], case['value']):
